@@ -1318,6 +1318,170 @@ sslio2_case(long long seed, long idx)
 	tp_pair_free(&s.p);
 }
 
+/* ------------------------------------------------------------------ */
+/*
+ * One context used for several connections (br_ssl_client_reset / br_ssl_server_reset), the previous one having
+ * ended in every way a connection can end.  Whatever happened before, the next connection behaves as on a fresh
+ * context: handshake, exact streams, orderly closure with one close_notify per side and no other alert, error 0.
+ */
+static void
+feed_raw(tp_ep *V, const unsigned char *rec, size_t rl)
+{
+	size_t fed = 0;
+	int guard = 0;
+	while (guard ++ < 1000 && fed < rl && !tp_ep_closed(V)) {
+		size_t l; unsigned char *b = br_ssl_engine_recvrec_buf(V->eng, &l);
+		if (b == NULL) {
+			if (br_ssl_engine_recvapp_buf(V->eng, &l)) { tp_act_read(V, l); continue; }
+			if (br_ssl_engine_current_state(V->eng) & BR_SSL_SENDREC) { tp_fifo tmp; tp_fifo_init(&tmp); tp_act_sendrec(V, &tmp, 100000); tp_fifo_free(&tmp); continue; }
+			break;
+		}
+		if (l > rl - fed) l = rl - fed;
+		memcpy(b, rec + fed, l); fed += l;
+		br_ssl_engine_recvrec_ack(V->eng, l);
+		tp_calls ++; tp_check(V, "recvrec_ack");
+	}
+}
+
+static void
+reuse_case(long long seed, long idx)
+{
+	static const char *const endn[10] = { "closed-by-it", "closed-by-peer", "fatal-alert-received", "lone-alert-level-byte", "cut-in-mid-record",
+		"bad-mac-received", "refused-by-peer-in-handshake", "closing-never-answered", "abandoned-in-mid-handshake", "abandoned-in-mid-renegotiation" };
+	vf_rng r;
+	int vrole = (int)(idx & 1), k, ends[3];
+	tp_pair p;
+	tm_pairmon pm;
+	tp_cfg cc, sc;
+	uint16_t sl[1];
+	char what[300];
+	const tp_suite_info *si = tp_suite_find(modes[(idx / 2) % NMODES]);
+	unsigned version = si->tls12only ? 0x0303 : 0x0301 + (unsigned)(((idx / 2) / NMODES) % 3);
+	int layout = (int)((idx / 2) % 3);
+
+	vf_rng_init(&r, (uint64_t)seed, (uint64_t)idx * 3 + 9);
+	ends[0] = (int)((idx / 2) % 10); ends[1] = (int)((idx / 20 + idx / 2) % 10); ends[2] = (int)(idx & 1);
+	tp_pair_init(&p, (uint64_t)seed, (uint64_t)idx, TP_CHUNK_WHOLE);
+	memset(&pm, 0, sizeof pm);
+	for (k = 0; k < 3; k ++) {
+		tp_ep *V, *O;
+		int dirV;       /* direction of records going to the victim */
+		int e = ends[k], refuse = (e == 6);
+		uint16_t other[1];
+		tp_cfg_default(&cc, 0); tp_cfg_default(&sc, 1);
+		cc.layout = sc.layout = layout;
+		cc.buflen = sc.buflen = layout == TP_LAYOUT_MONO ? BR_SSL_BUFSIZE_MONO : (layout == TP_LAYOUT_SPLIT1 ? BR_SSL_BUFSIZE_BIDI : BR_SSL_BUFSIZE_INPUT);
+		cc.buflen_out = sc.buflen_out = BR_SSL_BUFSIZE_OUTPUT;
+		sl[0] = si->id; cc.suites = sl; cc.nsuites = 1; cc.vmin = cc.vmax = version;
+		sc.keykind = tp_key_for_suite(si, 0);
+		if (refuse) {
+			/* the peer has nothing in common with the victim: a client offering another suite / a server limited to it */
+			other[0] = si->id == 0x002F ? 0x0035 : 0x002F;
+			if (vrole == 0) { sc.suites = other; sc.nsuites = 1; sc.keykind = TP_KEY_RSA; }
+			else { cc.suites = other; cc.nsuites = 1; cc.vmin = 0x0301; cc.vmax = 0x0303; sc.suites = sl; sc.nsuites = 1; }
+		}
+		if (vrole == 0) cc.reuse_ctx = k > 0; else sc.reuse_ctx = k > 0;
+		vf_bytes(&r, cc.seed, 32); vf_bytes(&r, sc.seed, 32);
+		V = vrole == 0 ? &p.c : &p.s; O = vrole == 0 ? &p.s : &p.c; dirV = vrole == 0 ? 1 : 0;
+		tp_ep_free(O);
+		p.c2s.rd = p.c2s.wr = 0; p.s2c.rd = p.s2c.wr = 0;
+		if (k > 0) rm_free(&pm.m.rm);
+		memset(&pm, 0, sizeof pm);
+		tm_pair_attach(&pm, &p);
+		pm.m.rec_hook = ver_hook;
+		snprintf(tp_case, sizeof tp_case, "%s reuse idx=%ld role=%s suite=%s ver=%04x layout=%d connection=%d previous-ended=%s this-ends=%s", base, idx,
+			vrole ? "server" : "client", si->name, version, layout, k + 1, k ? endn[ends[k - 1]] : "-", endn[e]);
+		if (!tp_ep_start(&p.c, &cc) || !tp_ep_start(&p.s, &sc)) { TP_VIOL("reuse:reset-failed", "reset of a used context failed"); break; }
+		p.c.tx_key = pm.m.key[0]; p.c.rx_key = pm.m.key[1]; p.s.tx_key = pm.m.key[1]; p.s.rx_key = pm.m.key[0];
+		vf_stat("reuse_connections", 1);
+		if (k > 0) vf_distinct("reuse_after", "%s/%s/l%d", vrole ? "server" : "client", endn[ends[k - 1]], layout);
+		if (refuse) {
+			tp_handshake(&p, 1000000);
+			tp_settle(&p, 100000);
+			if (tp_ep_ready(V)) { TP_VIOL("reuse:setup", "handshake with a peer that has no common suite completed"); break; }
+			continue;
+		}
+		if (e == 8) {
+			long q;
+			for (q = 0; q < 6; q ++) if (!tp_pump_step(&p)) break;
+			if (tp_ep_ready(V)) vf_stat("reuse_midhandshake_already_done", 1);
+			continue;
+		}
+		if (!tp_handshake(&p, 2000000)) {
+			snprintf(what, sizeof what, "handshake on a context whose previous connection ended (%s) failed: client err=%d server err=%d",
+				k ? endn[ends[k - 1]] : "-", br_ssl_engine_last_error(p.c.eng), br_ssl_engine_last_error(p.s.eng));
+			TP_VIOL("reuse:handshake-failed", what);
+			break;
+		}
+		{
+			size_t c1 = 50 + vf_below(&r, 700), s1 = 50 + vf_below(&r, 700);
+			if (!tp_run_data(&p, c1, s1, TP_W_MIXED, 2000000)) { TP_VIOL("reuse:data-failed", "data exchange on a reused context failed"); break; }
+			tp_settle(&p, 100000);
+			if (e <= 1 || k == 2) {
+				/* orderly end, judged in full */
+				tp_run_close(&p, e == 0 ? vrole : 1 - vrole, 1000000);
+				if (!tp_ep_closed(&p.c) || !tp_ep_closed(&p.s) || br_ssl_engine_last_error(p.c.eng) || br_ssl_engine_last_error(p.s.eng)) {
+					snprintf(what, sizeof what, "orderly closure on a reused context: client closed=%d err=%d, server closed=%d err=%d (previous connection: %s)",
+						tp_ep_closed(&p.c), br_ssl_engine_last_error(p.c.eng), tp_ep_closed(&p.s), br_ssl_engine_last_error(p.s.eng), k ? endn[ends[k - 1]] : "-");
+					TP_VIOL("reuse:closure-not-clean", what);
+					break;
+				}
+				if (count_alerts(&pm.m.rm, 0, 1, 0) != 1 || count_alerts(&pm.m.rm, 1, 1, 0) != 1 || pm.m.rm.n_alerts[0] != 1 || pm.m.rm.n_alerts[1] != 1) {
+					TP_VIOL("reuse:close-notify-count", "not exactly one close_notify per direction on a reused context");
+					break;
+				}
+				tm_verdict(&pm.m, 1, c1, s1);
+				vf_stat("reuse_clean_connections", 1);
+				continue;
+			}
+		}
+		/* abnormal ends, seen from the victim */
+		{
+			rm_cipher cs = pm.m.rm.cs[dirV];
+			rm_forge_opts fo;
+			unsigned char pl[64], rec[400];
+			size_t rl;
+			rm_forge_defaults(&fo);
+			switch (e) {
+			case 2:  /* fatal alert */
+				pl[0] = 2; pl[1] = (unsigned char)(20 + vf_below(&r, 60));
+				rl = rm_seal(&cs, 21, pl, 2, &fo, &r, 1, rec);
+				feed_raw(V, rec, rl);
+				if (!tp_ep_closed(V) || br_ssl_engine_last_error(V->eng) != BR_ERR_RECV_FATAL_ALERT + pl[1]) TP_VIOL("alert:fatal-alert-not-reported", "fatal alert on a reused context not reported");
+				break;
+			case 3:  /* the level byte of an alert, then silence */
+				pl[0] = (unsigned char)(1 + vf_below(&r, 2));
+				rl = rm_seal(&cs, 21, pl, 1, &fo, &r, 1, rec);
+				feed_raw(V, rec, rl);
+				break;
+			case 4:  /* half of a data record */
+				memset(pl, 0x33, 40);
+				rl = rm_seal(&cs, 23, pl, 40, &fo, &r, 1, rec);
+				feed_raw(V, rec, rl / 2);
+				break;
+			case 5:  /* a record that does not authenticate */
+				memset(pl, 0x44, 40);
+				rl = rm_seal(&cs, 23, pl, 40, &fo, &r, 1, rec);
+				rec[rl - 1] ^= 1;
+				feed_raw(V, rec, rl);
+				if (!tp_ep_closed(V) || br_ssl_engine_last_error(V->eng) == 0) TP_VIOL("reuse:setup", "bad record not refused");
+				break;
+			case 7:  /* closure requested, the peer never answers */
+				tp_act_write(V, 30);
+				tp_act_close(V);
+				{ tp_fifo tmp; tp_fifo_init(&tmp); while (!tp_ep_closed(V) && (br_ssl_engine_current_state(V->eng) & BR_SSL_SENDREC)) tp_act_sendrec(V, &tmp, 100000); tp_fifo_free(&tmp); }
+				break;
+			default: /* 9: renegotiation started, first flight out, then silence */
+				if (tp_act_reneg(V)) { long q; for (q = 0; q < 3; q ++) if (!tp_pump_step(&p)) break; }
+				break;
+			}
+			vf_stat("reuse_abnormal_ends", 1);
+		}
+	}
+	rm_free(&pm.m.rm);
+	tp_pair_free(&p);
+}
+
 int
 main(int argc, char **argv)
 {
@@ -1342,6 +1506,7 @@ main(int argc, char **argv)
 		else if (!strcmp(mode, "decline")) decline_case(seed, idx);
 		else if (!strcmp(mode, "prealert")) prealert_case(seed, idx);
 		else if (!strcmp(mode, "sslio2")) sslio2_case(seed, idx);
+		else if (!strcmp(mode, "reuse")) reuse_case(seed, idx);
 		vf_stat("cases", 1);
 	}
 	vf_stat("monitored_calls", tp_calls);
